@@ -230,7 +230,7 @@ Definition oracle_ops (inp obs : list N) : bool :=
                          N.of_nat (cell_idx (oc_C c) q 0 (N.to_nat r2)); N.of_nat nc]
                     | _ => []
                     end in
-                  list_N_eqb obs (1%N :: extra ++ e_Nlist (expected_buf (oc_C c) q f old))
+                  list_N_eqb obs (1%N :: (if oc_big c then [] else extra) ++ e_Nlist (expected_buf (oc_C c) q f old))
               end
           end
       end
